@@ -52,7 +52,12 @@ def genFieldsFor (version : Nat) : G (List (Nat × Nat)) := do
 
 def genValue (id w : Nat) : G Bytes := do
   if id = 60 then pure [← pick [4, 6, 4, 6, 0]]
-  else bytesOf w
+  else
+    -- boundary values for every field (all-zero addresses such as 0.0.0.0 / ::, all-ones) besides random ones
+    match (← below 8) with
+    | 0 => pure (List.replicate w 0)
+    | 1 => pure (List.replicate w 255)
+    | _ => bytesOf w
 
 def genCase (i : Nat) : G (List String) := do
   let version ← pick [9, 10]
